@@ -319,22 +319,23 @@ func Div(a *Term, k *big.Int) *Term {
 	if a.op == ODiv {
 		return Div(a.args[0], new(big.Int).Mul(a.k, k))
 	}
-	// div(mod(x,a),k) with k | a  =  div(x,k) - (a/k)*div(x,a)
-	if a.op == OMod && new(big.Int).Mod(a.k, k).Sign() == 0 {
-		return Sub(Div(a.args[0], k), MulC(Div(a.args[0], a.k), new(big.Int).Div(a.k, k)))
-	}
-	// pull out the part of a linear form that is divisible by k:
-	// floor((k*q*x + r*x + ...)/k) = q*x + floor((r*x + ...)/k)
-	out, rest, pulled := splitLin(linOf(a), k)
-	if pulled {
-		rt := rest.build()
-		var d *Term
-		if rt.op == OConst {
-			d = Const(floorDiv(rt.k, k))
-		} else {
-			d = TS.intern(ODiv, SInt, new(big.Int).Set(k), "", rt)
+	// exact division of a linear form all of whose coefficients are divisible by k
+	if l := linOf(a); len(l.coefs) > 0 {
+		all := new(big.Int).Mod(l.c, k).Sign() == 0
+		for _, c := range l.coefs {
+			if new(big.Int).Mod(c, k).Sign() != 0 {
+				all = false
+				break
+			}
 		}
-		return Add(out.build(), d)
+		if all {
+			n := newLin()
+			for id, c := range l.coefs {
+				n.addAtom(l.atoms[id], new(big.Int).Div(c, k))
+			}
+			n.c = new(big.Int).Div(l.c, k)
+			return n.build()
+		}
 	}
 	return TS.intern(ODiv, SInt, new(big.Int).Set(k), "", a)
 }
